@@ -203,7 +203,9 @@ def judge(source, target, matchings=None, kw=None, supplied_pairs=(), truthful=T
     if equal and delta:
         probs.append(("nonempty_for_equal", f"equal trees but delta has {len(delta)} edits, first {type(delta[0]).__name__}"))
     if not equal and not delta:
-        probs.append(("empty_for_different", "different trees but the delta is empty"))
+        from checks.c07 import first_diff
+
+        probs.append(("empty_for_different", f"[{first_diff(source, target)}] different trees but the delta is empty"))
     return probs
 
 
@@ -227,7 +229,8 @@ def worker(shard, nshards, plan, quick):
     idx = 0
 
     def record(code, edits, sql, tsql, cfg, msg):
-        key = (code, "+".join(edits), cfg)
+        # an empty delta for different trees is keyed by WHERE the trees differ, not by the edit that produced the pair
+        key = (code, msg[1:msg.index("]")] if (code == "empty_for_different" and msg.startswith("[")) else "+".join(edits), cfg)
         v = res["viol"].get(key)
         if v is None:
             res["viol"][key] = {"source": sql, "target": tsql, "cfg": cfg, "msg": msg, "count": 1}
